@@ -11,10 +11,12 @@ received by every destination of the first add (the old buffer is dropped by the
 re-send it).  Each executed schedule is also run through the Lean model (Driver/Handover.lean,
 adder compiled from skeleton E8) which must predict the same deliveries.
 
-LEAN side for C12.py:  LEAN_TARGETS += ["Eliot.Conc.Handover", "Eliot.Generated.Handover", "Eliot.Proofs.Handover"],
-theorems `Eliot.Conc.Handover.handover_race_witness`, `handover_no_loss_false`,
-`handover_race_witness_empty_list`, `handover_race_witness_prebuffered`;
-generated obligation `Generated.handover = Handover.assumed`.
+LEAN side for C12.py:  LEAN_TARGETS += _handover.LEAN_TARGETS, THEOREMS += _handover.THEOREMS,
+GENERATED_OBLIGATIONS += _handover.GENERATED_OBLIGATIONS (`Generated.handover = Handover.fixedSkel`, in
+Eliot/Proofs/HandoverGen.lean).  `handover_no_loss` / `handover_no_overtake` are about the repaired
+skeleton (model Eliot.Conc.HandoverFix); the `*_witness` theorems are about the OLD skeleton
+(`pinnedSkel`, model Eliot.Conc.Handover) only.  On a tree with the old shape the generated obligation
+fails and the search below reports the three losing / reordering schedules with their keys.
 """
 import json
 import time
@@ -29,10 +31,14 @@ KEY_EMPTY_LIST = {"schedule": "logger-iterates-new-empty-destination-list-before
 KEY_OVERTAKE = {"schedule": "message-logged-during-first-add-overtakes-buffered-messages"}
 # also check "in order and ahead of later messages" under interleavings (set False to restrict the oracle to loss / duplication)
 CHECK_ORDER = True
-LEAN_TARGETS = ["Eliot.Conc.Handover", "Eliot.Generated.Handover", "Eliot.Proofs.Handover"]
-THEOREMS = ["Eliot.Conc.Handover.handover_race_witness", "Eliot.Conc.Handover.handover_no_loss_false",
-            "Eliot.Conc.Handover.handover_race_witness_empty_list", "Eliot.Conc.Handover.handover_race_witness_prebuffered"]
-GENERATED_OBLIGATIONS = ["Generated.handover = Handover.assumed"]
+LEAN_TARGETS = ["Eliot.Conc.Handover", "Eliot.Conc.HandoverFix", "Eliot.Generated.Handover", "Eliot.Proofs.Handover",
+                "Eliot.Proofs.HandoverFix", "Eliot.Proofs.HandoverGen"]
+THEOREMS = ["Eliot.Conc.HandoverFix.handover_no_loss", "Eliot.Conc.HandoverFix.handover_no_overtake",
+            "Eliot.Conc.HandoverFix.handover_drain_exclusive",
+            "Eliot.Conc.Handover.handover_race_witness", "Eliot.Conc.Handover.handover_no_loss_false",
+            "Eliot.Conc.Handover.handover_race_witness_empty_list", "Eliot.Conc.Handover.handover_race_witness_prebuffered",
+            "Eliot.Conc.Handover.handover_overtake_witness"]
+GENERATED_OBLIGATIONS = ["Generated.handover = Handover.fixedSkel"]
 
 
 def gated_functions():
@@ -112,6 +118,8 @@ def oracle(case, res, obs):
             firstnew = next((i for i, k in enumerate(g) if k in logged), None)
             if firstnew is not None and any(k in case["pre"] for k in g[firstnew:]):
                 bad.append("destination %d received %s: a message logged during the first add overtook older buffered messages" % (d, g))
+            elif any([k for k in g if k in ids] != [k for k in ids if k in g] for ids in case["loggers"]):
+                bad.append("destination %d received %s: one thread's messages overtook each other during the first add" % (d, g))
     return bad
 
 
@@ -144,17 +152,26 @@ def classify(sk, case, res):
     return None
 
 
-def model_case(sk, case, res):
-    L = sk["lines"]
-    n = len(case["loggers"])
-    add_lines = set(L.get("add", []))
-    out = []
-    nxt = {}  # index of the next step of the same thread
-    last = {}
+def _next_of_thread(res):
+    nxt, last = {}, {}
     for i, s in enumerate(res.trace):
         if s.tid in last:
             nxt[last[s.tid]] = i
         last[s.tid] = i
+    return nxt
+
+
+def model_case(sk, case, res):
+    out = _model_sched_fixed(sk, case, res) if sk.get("shape") == "fixed" else _model_sched_pinned(sk, case, res)
+    return dict(pre=case["pre"], prog=case["loggers"], dests=list(range(case["dests"])), sched=out)
+
+
+def _model_sched_pinned(sk, case, res):
+    L = sk["lines"]
+    n = len(case["loggers"])
+    add_lines = set(L.get("add", []))
+    out = []
+    nxt = _next_of_thread(res)
     for i, s in enumerate(res.trace):
         if s.file != OUTPUT:
             continue
@@ -180,14 +197,49 @@ def model_case(sk, case, res):
                     out.append("a")
             elif s.func == "__call__" and s.line == L.get("buffer_append"):
                 out.append("a")
-    return dict(pre=case["pre"], prog=case["loggers"], dests=list(range(case["dests"])), sched=out)
+    return out
+
+
+def _model_sched_fixed(sk, case, res):
+    """Repaired shape: one model step per `for` evaluation / destination call of _send_to, per entry into
+    a `with self._lock:` block (the critical section), per `self._forward(message)`, per statement of add."""
+    L = sk["lines"]
+    n = len(case["loggers"])
+    add_lines = {L.get(k) for k in ("add_test", "set_any_added", "take_buffer_dest", "mk_new", "assign_dests", "extend")} - {None}
+    out = []
+    nxt = _next_of_thread(res)
+    for i, s in enumerate(res.trace):
+        if s.file != OUTPUT:
+            continue
+        who = ["l", s.tid] if s.tid < n else ("a" if s.tid == n else None)
+        if who is None:
+            continue
+        k = 0
+        if s.func == "send" and s.line == L.get("send_capture"):
+            k = 2 if s.tid < n else 0
+        elif s.func == "_send_to" and s.line == L.get("sendto_for"):
+            k = 1
+        elif s.func == "_send_to" and s.line == L.get("sendto_call"):
+            j = nxt.get(i)
+            k = 0 if (j is not None and res.trace[j].func == "__call__") else 1
+        elif s.func == "__call__" and s.note == "acquire":
+            k = 1
+        elif s.func == "__call__" and s.line == L.get("buffer_forward"):
+            k = 1
+        elif s.tid == n and s.func == "add" and s.line in add_lines:
+            k = 1
+        elif s.tid == n and s.func == "drain" and (s.note in ("acquire", "release") or s.line in (L.get("drain_for"), L.get("drain_forward"))):
+            k = 1
+        out.extend([who] * k)
+    return out
 
 
 def witness_schedule(S, sk, case):
     """The real schedule corresponding to the Lean witness: the logger runs until it has executed
     the `for dest in self._destinations` line, then the adder runs the whole `add`, then the logger."""
     res, _ = run_real(S, case, sched.Explicit([0] * 10000))
-    k = next((i for i, s in enumerate(res.trace) if s.tid == 0 and s.line == sk["lines"].get("send_for")), None)
+    cap = sk["lines"].get("send_capture") or sk["lines"].get("send_for")
+    k = next((i for i, s in enumerate(res.trace) if s.tid == 0 and s.func == "send" and s.line == cap), None)
     if k is None:
         return None
     n = len(case["loggers"])
@@ -233,7 +285,7 @@ def run_handover(ctx, seconds=None):
     # 1. the witness of the Lean theorem, replayed on the real code
     w = witness_schedule(S, sk, cases[0])
     if w is None:
-        ctx.broken_tie(name, "cannot place the model's witness schedule on the real code (send has no `for dest in self._destinations` line)", None)
+        ctx.broken_tie(name, "cannot place the witness schedule on the real code (send does not evaluate self._destinations on a recognised line)", None)
     else:
         res, obs = run_real(S, cases[0], sched.Explicit(w))
         ctx.count("handover:witness-replayed")
